@@ -222,4 +222,10 @@ theorem mp_claims (A : List Nat) (struct rules : List Rule) (cands : List (List 
   have he := evalGraph_reuse A struct rules r.1 hwf hr.1 hsub
   exact ⟨hr.1, by rw [hr.2]; exact he, by rw [hr.2, he]; exact bruteMax_ge A rules _ hr.1⟩
 
+/-- `ls_claims` on a concrete instance: LocalSearch from (0,0,0,0) with two sweeps in the orders 3,1,0,2 and 0,1,2,3
+    climbs to the optimum (0,2,0,1) with value 2 (a test, by evaluation) -/
+example :
+    lsResult [2,3,2,2] (lsGraph [2,3,2,2] [⟨[0,1],[1,2],-3/2⟩, ⟨[1],[2],2⟩, ⟨[0,1],[1,2],1/4⟩, ⟨[3],[0],-1/2⟩, ⟨[0,1,3],[0,0,1],5/4⟩])
+      [[3,1,0,2],[0,1,2,3]] [0,0,0,0] = ([0,2,0,1], 2) := by decide +kernel
+
 end AITB.VE
